@@ -4,6 +4,9 @@
 (* pulsed.  Every line carries MPF's counts (m): bounded always (C04), and on `rest` lines (world *)
 (* quiet for longer than every timeout) equal to the physical truth, all devices idle, every     *)
 (* requested ball delivered and nothing left pending (C04 + C05).                                *)
+(* `hold` / `held` / `unhold`: a handler of the environment on the device's eject_attempt queue   *)
+(* event is armed / has caught an attempt (queue.wait()) / lets it go (queue.clear()); the fire   *)
+(* that follows is a Fire like any other: the target must have room when the coil is pulsed.      *)
 EXTENDS BallWorld, TraceIO
 VARIABLES tid, l
 tvars == <<vars, tid, l>>
@@ -25,6 +28,9 @@ Step(e) ==
        \/ e.op = "release" /\ Release(e.d)
        \/ e.op = "broken" /\ Broken(e.d)
        \/ e.op = "request" /\ Request
+       \/ e.op = "hold" /\ HoldArm(e.d)
+       \/ e.op = "held" /\ Held(e.d)
+       \/ e.op = "unhold" /\ Unhold(e.d)
        \/ /\ e.op = "rest" /\ Quiet /\ UNCHANGED vars
           \* C04: at rest every count equals the physical truth and they sum to the balls known
           /\ \A d \in Devs : e.m[d] = Cardinality(In(d))
